@@ -63,6 +63,29 @@ def rnum(rng):
     return rng.randrange(-(1 << 31), 1 << 31)
 
 
+def nonminimal(n):
+    """a non-minimal encoding of n (at most 4 bytes), or the minimal one when there is no room"""
+    e = num(n)
+    if len(e) >= 4:
+        return e
+    if n == 0:
+        return b'\x00' if len(e) == 0 else e
+    if n > 0:
+        return e + b'\x00'
+    return e[:-1] + bytes([e[-1] & 0x7f]) + b'\x80'
+
+
+def rarith(rng):
+    """an arithmetic operand: mostly minimal, sometimes non-minimal / negative zero"""
+    r = rng.random()
+    n = rnum(rng)
+    if r < 0.75:
+        return num(n)
+    if r < 0.95:
+        return nonminimal(n if abs(n) < (1 << 23) else n % 1000)
+    return rng.choice([b'\x80', b'\x00\x80', b'\x00', b'\x00\x00', b'\x01\x00\x00\x00', b'\x00\x00\x00\x80'])
+
+
 def ritem(rng):
     r = rng.random()
     if r < 0.45:
@@ -101,10 +124,10 @@ def program(rng, depth0, maxlen=25, nest=0):
             cands = [o for o in STACK_OPS if o[1] <= d] or [(0x74, 0, 1)]
             o = rng.choice(cands); out.append(o[0]); d += o[2]
         elif r < 0.58 and d >= 1:
-            out += push_item(rng, num(rnum(rng))) if rng.random() < 0.5 else b''
+            out += push_item(rng, rarith(rng)) if rng.random() < 0.5 else b''
             out.append(rng.choice(UN_OPS))
         elif r < 0.68:
-            out += push_item(rng, num(rnum(rng))) + push_item(rng, num(rnum(rng))); out.append(rng.choice(BIN_OPS)); d += 1
+            out += push_item(rng, rarith(rng)) + push_item(rng, rarith(rng)); out.append(rng.choice(BIN_OPS + [0x9d])); d += 1
         elif r < 0.72 and d >= 1:
             out.append(rng.choice(HASH_OPS))
         elif r < 0.78 and nest < 3:
@@ -119,7 +142,7 @@ def program(rng, depth0, maxlen=25, nest=0):
         elif r < 0.81:
             out += push_item(rng, num(rng.randrange(0, max(d, 1) + 1))); out.append(rng.choice([0x79, 0x7a])); d += 0
         elif r < 0.84:
-            x = num(rnum(rng)); out += push_item(rng, x) + push_item(rng, num(rnum(rng))) + push_item(rng, num(rnum(rng))); out.append(0xa5); d += 1
+            out += push_item(rng, rarith(rng)) + push_item(rng, rarith(rng)) + push_item(rng, rarith(rng)); out.append(0xa5); d += 1
         elif r < 0.88:
             sig = rng.choice([b'', b'\x30\x06\x02\x01\x01\x02\x01\x01\x01', bytes(rng.getrandbits(8) for _ in range(rng.choice([1, 9, 71])))])
             pk = rng.choice([b'\x02' + b'\x11' * 32, b'', b'\x04' + b'\x22' * 64, bytes(rng.getrandbits(8) for _ in range(33))])
